@@ -140,6 +140,7 @@ pub fn build_module(body: &[J], arity: u64, nlocals: u32) -> Vec<u8> {
 /// Decode the local function of an encoded module back into the alphabet.
 pub fn decode_body(bytes: &[u8]) -> Result<(Vec<J>, Vec<String>), String> {
     let mut types: Vec<(usize, usize)> = vec![];
+    let mut fnames: Vec<String> = vec![]; // imported function names, in function-index order
     let mut out = vec![];
     let mut locals = vec![];
     let mut seen = false;
@@ -155,6 +156,14 @@ pub fn decode_body(bytes: &[u8]) -> Result<(Vec<J>, Vec<String>), String> {
                         } else {
                             types.push((99, 99));
                         }
+                    }
+                }
+            }
+            wasmparser::Payload::ImportSection(r) => {
+                for i in r {
+                    let i = i.map_err(|e| e.to_string())?;
+                    if let wasmparser::TypeRef::Func(_) = i.ty {
+                        fnames.push(i.name.to_string());
                     }
                 }
             }
@@ -183,15 +192,17 @@ pub fn decode_body(bytes: &[u8]) -> Result<(Vec<J>, Vec<String>), String> {
                     };
                     let j = match &op {
                         Operator::Call { function_index } => {
-                            let f = *function_index;
-                            if f < N_OP {
-                                json!({"o":"op","k":f})
-                            } else if f < N_OP + N_COND {
-                                json!({"o":"cond","k":f - N_OP})
-                            } else if f < F_LOCAL {
-                                json!({"o":"probe","p":f - N_OP - N_COND})
+                            // identity of the callee = the name of the import the index designates
+                            let name = fnames.get(*function_index as usize).cloned().unwrap_or_default();
+                            let num = |pre: &str| name.strip_prefix(pre).and_then(|x| x.parse::<u32>().ok());
+                            if let Some(k) = num("op") {
+                                json!({"o":"op","k":k})
+                            } else if let Some(k) = num("cond") {
+                                json!({"o":"cond","k":k})
+                            } else if let Some(p) = num("probe") {
+                                json!({"o":"probe","p":p})
                             } else {
-                                json!({"o":"foreign","txt":format!("call {}", f)})
+                                json!({"o":"foreign","txt":format!("call {} ({})", function_index, name)})
                             }
                         }
                         Operator::Block { blockty } => json!({"o":"block","r":bt(blockty)}),
@@ -448,6 +459,20 @@ pub fn run_case(case: &J, enc2: bool) -> CaseOut {
     };
     if let Ok(mut g) = LOGS.lock() {
         g.clear();
+    }
+    // optional module edits that force re-indexing of every call (cross-family: index spaces x lowering)
+    match case["pre"].as_str().unwrap_or("") {
+        "del_imp" => {
+            // delete the (unused) imported function op7: everything behind it moves down by one
+            let _ = guarded(|| module.delete_func(FunctionID(N_OP - 1)));
+        }
+        "add_imp" => {
+            let _ = guarded(|| module.add_import_func("env".to_string(), "extra".to_string(), wirm::ir::id::TypeID(0)));
+        }
+        _ => {}
+    }
+    if let Some(p) = case["pre"].as_str() {
+        ev["pre"] = json!(p);
     }
     let mut plan_out = vec![];
     for e in plan.iter() {
